@@ -1,5 +1,6 @@
 import MpdProofs.Lemmas.LoopInv
 import Mpd.Client
+import MpdProofs.Lemmas.Progress
 /-!
 # C08 — when the connection ends, every request resolves and the failure is reported
 
@@ -17,10 +18,19 @@ On the byte-level task model, for EVERY state:
 * `C08_complete_reply_kept`: a reply that was completely buffered before the fault is still
   delivered `Ok` to its caller.
 
-PARTIAL: liveness is shown as "no program point can block on a dead connection" + the accounting
-invariant; the bounded-progress measure over whole drains, tokio's scheduler and `Drop` order are
-validated by the correspondence run with faults at arbitrary points (every request future must
-complete, `is_connection_closed`, event stream end, transport `Drop`).
+* `C08_dead_connection_drains` (**whole drain, bounded progress**): from ANY connected state whose
+  read side is dead (EOF or read fault, both persistent), with no further input and whatever poll
+  order the scheduler picks at every `select!`, within `μ s` moves (task steps, or the 100 ms timer
+  firing when that is all the task waits for) the loop has returned, the queue is empty, and every
+  request that was queued or in flight has been answered — exactly as often as it was accounted for.
+  `μ` is an explicit termination measure (`Lemmas/Progress.lean`): `step_decreases`,
+  `blocked_only_on_timer`, `tick_decreases`.
+
+PARTIAL: a dead WRITE side alone (reads still possible) ends the loop only at the next write; that
+the peer then closes the read side is the environment's business. tokio's scheduler fairness (that
+the task is polled at all) and `Drop` order are validated by the correspondence run with faults at
+arbitrary points (every request future must complete, `is_connection_closed`, event stream end,
+transport `Drop`).
 -/
 namespace Mpd.C08
 open Mpd Mpd.Loop
@@ -35,6 +45,23 @@ theorem C08_never_lost (s s' : St) (rf : Bool) (h : step s rf = some s') :
 
 theorem C08_at_most_one_closing (s s' : St) (rf : Bool) (h : step s rf = some s') (hi : ClosingInv s) :
     ClosingInv s' := step_closingInv s s' rf h hi
+
+/-- **whole drain** on a dead connection: see the header -/
+theorem C08_dead_connection_drains (sched : St → Bool) (s : St) (hp : Post s) (hd : Dead s) :
+    ∃ n, n ≤ μ s ∧ (drain sched n s).pc = .exited ∧ (drain sched n s).queue = [] ∧
+      ∀ id, (resolvedIds (drain sched n s).obs).count id = (accounted s).count id :=
+  dead_connection_drains sched s hp hd
+
+/-- non-vacuity: a request in flight, another queued, the stream ends inside the reply -/
+def deadExample : St :=
+  { pc := .waiting { id := 1, bytes := str "ping\n" } (.inProgress { fields := [(str "a", str "b")] }),
+    queue := [{ id := 2, bytes := str "status\n" }], eof := true, senders := 3, fresh := false }
+
+example : Post deadExample ∧ Dead deadExample := by
+  refine ⟨⟨trivial, by intro h; cases h⟩, Or.inl rfl⟩
+
+example : ((drain (fun _ => false) 6 deadExample).pc, resolvedIds (drain (fun _ => false) 6 deadExample).obs) =
+    (.exited, [1, 2]) := by decide +kernel
 
 theorem C08_closing_init : ClosingInv {} := by simp [ClosingInv, closings]
 
